@@ -11,6 +11,8 @@ MUTANTS = [
     ("C11", "revert-F5", [("patch", "revert-F5.diff", None)]),
     ("C13", "revert-F3", [("patch", "revert-F3.diff", None)]),
     ("C13", "revert-F2", [("patch", "revert-F2.diff", None)]),
+    ("C15", "revert-F4-F7", [("patch", "revert-F4.diff", None)]),
+    ("C16", "revert-F4-F7", [("patch", "revert-F4.diff", None)]),
     # ---------------- C11 ----------------
     ("C11", "succ-le", "bisturi/fragments.py",
      "if b2 < position + L:", "if b2 <= position + L:"),
